@@ -217,6 +217,27 @@ func suiteC01(s *Suite, rng *Rng, tier string) {
 		if ambiguous {
 			continue
 		}
+		// one proof object verified, changed in place, verified again: what the first verification left in the object (cached
+		// structures, filled-in fields) must not vouch for the changed content
+		{
+			obj := cloneProofD(honest)
+			run("reused-object:first", obj, false)
+			changed := false
+			for i, v := range obj.ADisclosed {
+				obj.ADisclosed[i] = new(gbig.Int).Add(v, bi(1))
+				changed = true
+				break
+			}
+			if !changed {
+				for i, v := range obj.AResponses {
+					obj.AResponses[i] = new(gbig.Int).Add(v, bi(1))
+					break
+				}
+			}
+			if run("reused-object:changed-in-place", obj, false) {
+				s.Violate("C01:verified-object-accepted-after-change", "a proof object that had been verified is still accepted after a disclosed value or a response was changed in place", L{dumpProofD(obj, kp.Pk)})
+			}
+		}
 		c := honest.C
 		hidden := []int{}
 		for i := range honest.AResponses {
